@@ -745,6 +745,7 @@ func (c *Ctx) Resize(a *Term, w int, signExtend bool) *Term {
 // already seen (cleared by Reset).
 type Printer struct {
 	defined map[int]bool
+	track   *[]int // when non-nil, IDs defined are also appended here (solver scopes)
 }
 
 func NewPrinter() *Printer { return &Printer{defined: map[int]bool{}} }
@@ -824,6 +825,9 @@ func (p *Printer) Define(t *Term, out *[]string) {
 		}
 		if !p.defined[top.t.ID] {
 			p.defined[top.t.ID] = true
+			if p.track != nil {
+				*p.track = append(*p.track, top.t.ID)
+			}
 			*out = append(*out, fmt.Sprintf("(define-fun t!%d () %s %s)", top.t.ID, sortStr(top.t.W), body(top.t)))
 		}
 		stack = stack[:len(stack)-1]
